@@ -519,3 +519,29 @@ contract(CW + 'WMSInfoClient._query_url', props=['C17', 'C01'],
          stable_fields=['bbox', 'size', 'pos', 'srs', 'srs_code', 'params'],
          opaque_spec={'copy': {'pure': True}, 'contains': {'returns': 'bool', 'pure': True}},
          trace=[_info_query_params])
+
+
+# ---- PreferredSrcSRS.preferred_src: the SRS used upstream is an ENTRY of the source's list (equal SRS may carry other codes) ---------
+def _result_is_an_entry(ex, st, post, result):
+    import z3
+    avail = post.env['available_src']
+    t = getattr(result, 't', None)
+    target = post.env['target']
+    # taken out of available_src by subscription or iteration: available_src[...] / an element of `for avail in available_src`
+    from_list = t is not None and z3.is_app(t) and t.num_args() >= 1 and t.arg(0).eq(avail.t) and \
+        t.decl().name().startswith(('opaque_item2_', 'opaque_item_', 'available_src[]', 'iter'))
+    loop_elem = 'avail' in st.env and getattr(st.env.get('avail'), 't', None) is not None and t is not None and t.eq(st.env['avail'].t)
+    yield ('upstream_srs_is_an_entry_of_the_configured_list', z3.BoolVal(bool((from_list or loop_elem) and not t.eq(target.t))),
+           'the SRS chosen for the upstream request is taken OUT OF the configured list (available_src[i] or an element met while '
+           'iterating it) - never the target or a preference-rule entry that merely compares equal (EPSG:3857 == EPSG:900913, '
+           'different codes)')
+
+
+cls('mapproxy.srs:PreferredSrcSRS', fields=dict(target_proj='opaque'))
+contract('mapproxy.srs:PreferredSrcSRS.preferred_src', props=['C17'],
+         types=dict(target='opaque', available_src='opaque'), returns='opaque', default_callee='opaque',
+         opaque_fields={'is_latlong': 'bool'}, stable_fields=['is_latlong'],
+         opaque_spec={'contains': {'returns': 'bool', 'pure': True}, 'index': {'pure': True}},
+         raises={'ValueError': True},
+         loops={0: dict(inv=[], types={}), 1: dict(inv=[], types={})},
+         trace=[_result_is_an_entry])
